@@ -13,6 +13,8 @@ CASES = {
  "setter inherited, data descriptor beats instance dict": "class B:\n    @property\n    def v(self):\n        return self.__dict__.get('_v', 7)\n    @v.setter\n    def v(self, x):\n        self.__dict__['_v'] = x * 2\nclass C(B):\n    pass\ndef f(a, b):\n    c = C()\n    r0 = c.v\n    c.v = 4\n    return r0, c.v\n",
  "dataclass field(compare=False) / init=False": "from dataclasses import dataclass, field\n@dataclass\nclass P:\n    a: int\n    note: str = field(default='', compare=False)\n    n: int = field(default=7, init=False)\n    tags: list = field(default_factory=list)\ndef f(a, b):\n    x, y = P(1, 'x'), P(1, 'y')\n    out = [x == y, P(1) == P(2), x.n, x.tags is y.tags]\n    try:\n        P(1, 'x', 3, [])\n    except TypeError:\n        out.append('TypeError')\n    return out\n",
  "dataclass(eq=False) compares by identity": "from dataclasses import dataclass\n@dataclass(eq=False)\nclass P:\n    a: int\ndef f(a, b):\n    x = P(1)\n    return x == P(1), x == x\n",
+ "vars() is the live instance dict": "class P:\n    def __init__(self):\n        self.a = 1\n    def norm(self):\n        d = vars(self)\n        d['a'] = d['a'] + 1\n        d['b'] = 5\n        return sorted(d)\ndef f(a, b):\n    p = P()\n    return p.norm(), p.a, p.b\n",
+ "method alias in class body": "import copy\nclass P:\n    def __init__(self, v):\n        self.v = v\n    def clone(self):\n        return type(self)(self.v + 1)\n    __copy__ = clone\ndef f(a, b):\n    p = P(1)\n    return p.__copy__().v, copy.copy(p).v\n",
  "itertools.chain": "import itertools\ndef f(a, b):\n    return list(itertools.chain(a, b))\n",
  "chain.from_iterable": "import itertools\ndef f(a, b):\n    return list(itertools.chain.from_iterable([a, b]))\n",
  "enumerate start": "def f(a, b):\n    return [(i, x) for i, x in enumerate(a, start=1)]\n",
